@@ -31,8 +31,10 @@ Modes(c) ==
   ELSE IF NoBodyByRule(c.method, c.status) THEN {NoBody}
   ELSE IF DeclaresChunked(c.te) /\ ~c.http10 THEN {Chunked}
   ELSE IF c.cl # "absent" THEN {Mode("Length", c.clv)}
-  ELSE IF IsRedirectStatus(c.status)
-       THEN (IF c.te = "absent" THEN {NoBody} ELSE {NoBody, Close})   \* a Transfer-Encoding that does not delimit: "framing header"? either
+  \* here no header delimits a body (no Content-Length; no chunked coding that counts): "without any framing header"
+  \* is read as "without a header that frames the body" — a Transfer-Encoding: gzip, or chunked on an HTTP/1.0
+  \* response, frames nothing.  (Until round 3 of the seeded changes both answers were accepted in these cells.)
+  ELSE IF IsRedirectStatus(c.status) THEN {NoBody}
   ELSE {Close}
 
 NeedBody(m) == m.m # "NoBody" /\ ~(m.m = "Length" /\ BigIsZero(m.n))
